@@ -74,6 +74,9 @@ def run(tier: str) -> int:
     for _ in range(ck.budget(2500, 40000)):
         t = gen.rand_tag(rng, rng.randint(1, 5), all_names=fns)
         cases.append(("tag", t, rng.choice([0, 1, 3]), rng.choice(["\n", "", "<!>"])))
+    for t in gen.alias_trees(rng, ck.budget(300, 4000)):
+        cases.append(("tag", t, rng.choice([0, 1]), "\n"))
+    ck.exhaustive_scopes.append({"scope": "aliasing stream: one string as HTML(), text, _repr_html_ and attribute values in one tree, lengths " + str(gen.ALIAS_LENGTHS), "exhaustive": False})
     subst.check_cases(ck, cases, {"a", "h"}, "an attribute value must be emitted as its per-character escape (HTML() verbatim)")
     # merging: the statement evaluated literally on the real code, for every entry point
     if ck.driver is not None:
